@@ -39,6 +39,18 @@ def make_program(body, variant):
     if variant == 2:
         p.consts = [{"name": "w", "ty": I32, "expr": lit(5)}]
         consts = ["w"]
+    if variant == 3:
+        # a parameter may not reuse the name of a module constant (E424), wherever the constant is declared
+        p.consts = [{"name": "w", "ty": I32, "expr": lit(5)}]
+        consts = ["w"]
+        f = {"name": "f", "params": [("w", I32, "val")], "ret": I32,
+             "body": [("var", "x", I32, lit(0))] + list(body), "ret_expr": X, "effectful": False, "index": 0}
+        m = {"name": "main", "params": [], "ret": I32, "body": [], "ret_expr": ("call", I32, "f", [lit(3)]),
+             "effectful": False, "index": 1}
+        p.funcs = [f, m]
+        p.decl_order = [0, 1, 2] if len(body) % 2 else [1, 2, 0]
+        params = ["w"]
+        return p, params, consts
     if variant == 1:
         f = {"name": "f", "params": [("v", I32, "val")], "ret": I32,
              "body": [("var", "x", I32, lit(0))] + list(body), "ret_expr": X, "effectful": False, "index": 0}
@@ -57,6 +69,8 @@ def check_body(body, variant=0):
     prog, params, consts = make_program(body, variant)
     full = [("var", "x", I32, lit(0))] + list(body)
     found = models.variable_model(full, params=params, consts=consts, ret_expr=X, detailed=True)
+    if variant == 3:
+        found = [(0, 424, "w")] + list(found)      # the parameter clash comes first; later findings about `w` are allowed, not required
     lexical = set(c for _p, c, _n in found)
     required = models.first_codes_per_name(found)
     paths = models.definitely_declared(full, params=params, consts=consts, ret_expr=X)
@@ -83,7 +97,7 @@ def check_body(body, variant=0):
     # monitor 2: verdict table
     want = set(lexical)
     problems = []
-    for code in (402, 422):
+    for code in (402, 422, 424):
         if code in required and code not in rel:
             problems.append("E%d missing" % code)
         if code in rel and code not in want:
@@ -162,9 +176,16 @@ def run_case(case):
             i += 1
             if i % n != idx:
                 continue
-            variant = 0 if i % 4 else (1 + (i // 4) % 2)
+            variant = 0 if i % 4 else (1 + (i // 4) % 3)
             res = check_body(b, variant)
             res.setdefault("cov", {})["enum_%s_size_%d" % (which, size)] = 1
+            if size >= 2 and i % 2 == 0:
+                # the same body with statements inserted that declare nothing and jump nowhere
+                nrng = common.rng_for(size, PROP, "noise", which, i)
+                noisy = gen_scope.insert_noise(nrng, b, nrng.choice([1, 1, 2]))
+                res2 = check_body(noisy, variant)
+                res2.setdefault("cov", {})["noise_variants"] = 1
+                out.append(res2)
             if i % 1009 == 1 and res["verdict"] == HELD:
                 res["sample"] = {"body": gen_prog.to_source(make_program(b, variant)[0]),
                                  "model": sorted(models.variable_model([("var", "x", I32, lit(0))] + b, ret_expr=X))}
